@@ -160,6 +160,10 @@ POOL = [
     {"PREFER_LOCALE_DATE_ORDER": True}, {"PREFER_LOCALE_DATE_ORDER": False}, {"NORMALIZE": True}, {"NORMALIZE": False},
     {"DATE_ORDER": "MDY", "NORMALIZE": True}, {"SKIP_TOKENS": ["t"]}, {"SKIP_TOKENS": ["t", "x"]}, {"CACHE_SIZE_LIMIT": 1000},
     {"CACHE_SIZE_LIMIT": 1}, {"STRICT_PARSING": False}, {"TIMEZONE": "local"}, {"TIMEZONE": "UTC"},
+    # configurations whose textual renderings are close: permuted lists, same concatenation, references that differ
+    {"DEFAULT_LANGUAGES": ["pt", "es"]}, {"DEFAULT_LANGUAGES": ["es", "pt"]}, {"SKIP_TOKENS": ["de", "la"]},
+    {"SKIP_TOKENS": ["dela"]}, {"RELATIVE_BASE": _dt.datetime(2021, 5, 31)}, {"RELATIVE_BASE": _dt.datetime(2023, 1, 10)},
+    {"PARSERS": ["timestamp", "absolute-time"]}, {"PARSERS": ["absolute-time", "timestamp"]},
 ]
 
 
@@ -168,7 +172,10 @@ def h_registry():
         n = C.ns()
         i = core.concretize(C.field("i", 0, len(POOL) - 1))
         j = core.concretize(C.field("j", 0, len(POOL) - 1))
-        mutate = core.concretize(C.field("mutate", 0, 3))
+        # (earlier versions also overwrote a field of the registered instance by hand and demanded that the next
+        # construction heals it; that is more than the property states - every site that writes into a shared instance is
+        # now checked to restore it (date-order restore, live-object histories) - and it was dropped: DESIGN.md section 5)
+        mutate = 0
         d1, d2 = dict(POOL[i]), dict(POOL[j])
         if not d1 and mutate:
             raise core.Abort()    # the default instance is not rebuilt per call; no call may leave it mutated (see restore)
@@ -245,14 +252,14 @@ def h_history(shape):
 # ------------------------------------------------------------------------------------------------ live-object histories
 # A DateDataParser (or an earlier configuration) is still alive while OTHER calls are made; then it is used (again).
 # One sequence description drives both the symbolic run and the native replay.
-OLDER = ["search-same-settings", "construct-other-base", "permuted-defaults", "equal-effective-settings",
+OLDER = ["search-same-settings", "search-then-new-parser", "construct-other-base", "permuted-defaults", "equal-effective-settings",
          "format-strictness-history", "skip-token-concatenation", "many-settings-then-default", "typed-vs-text-value"]
 _SEARCH_TEXT = "It was signed on March 5 2020 and published 2 days later"
 
 
 def _older_fields(kind):
     """name -> (lo, hi) of the symbolic decimal fields of the probing call"""
-    return {"search-same-settings": {"n": (0, 99)}, "construct-other-base": {},
+    return {"search-same-settings": {"n": (0, 99)}, "search-then-new-parser": {"n": (0, 99)}, "construct-other-base": {},
             "permuted-defaults": {"d": (1, 28)}, "equal-effective-settings": {"Y": (1000, 9999), "m": (1, 12), "d": (1, 28)},
             "format-strictness-history": {"Y": (1000, 9999)}, "skip-token-concatenation": {"Y": (1000, 9999), "d": (1, 28)},
             "many-settings-then-default": {"n": (0, 99)}, "typed-vs-text-value": {"Y": (1000, 9999), "m": (1, 12), "d": (1, 28)}}[kind]
@@ -266,6 +273,10 @@ def _older_seq(kind, DDP, search, S, base):
         p1 = DDP(languages=["en"], settings=dict(X))
         search(_SEARCH_TEXT, languages=["en"], settings=dict(X))
         return p1.get_date_data(S([("n", 2), " days ago"]))
+    if kind == "search-then-new-parser":
+        X = {"TIMEZONE": "UTC"}
+        search(_SEARCH_TEXT, languages=["en"], settings=dict(X))
+        return DDP(languages=["en"], settings=dict(X)).get_date_data(S([("n", 2), " days ago"]))
     if kind == "construct-other-base":
         X = {"PREFER_MONTH_OF_YEAR": "current", "PREFER_DAY_OF_MONTH": "current"}
         p1 = DDP(languages=["en"], settings=dict(X, RELATIVE_BASE=base("b")))
@@ -312,7 +323,7 @@ def h_older(kind):
                 bases[prefix] = C.sym_base(prefix, 1900, 2100, with_us=False)
                 wit.update(C.base_witness(bases[prefix], prefix))
             return bases[prefix]
-        if kind in ("search-same-settings", "many-settings-then-default"):
+        if kind in ("search-same-settings", "search-then-new-parser", "many-settings-then-default"):
             clk = dates.SDateTime._clock()
             core.assume(mkbool(z3.And(_zi(clk.year) >= 1900, _zi(clk.year) <= 2100)))    # stated bound on the clock
         dd = _older_seq(kind, n.D.DateDataParser, n.SE.search_dates, lambda parts: tmpl(parts, v), base)
@@ -321,7 +332,7 @@ def h_older(kind):
             return C.outcome(do is None, wit, "strict")
         if do is None:
             return C.outcome(False, wit, "none")
-        if kind in ("search-same-settings", "many-settings-then-default"):
+        if kind in ("search-same-settings", "search-then-new-parser", "many-settings-then-default"):
             clk = dates.SDateTime._clock()
             ok = z3.And(do._ord() == clk._ord() - _zi(v["n"]), do._us_of_day() == clk._us_of_day())
         elif kind == "construct-other-base":
@@ -489,7 +500,7 @@ def native_check(spec):
             getattr(dd.locale, "shortname", dd.locale))
         if kind == "format-strictness-history":
             return {"violates": do is not None, "detail": desc + "; expected None (the string states no day)"}
-        if kind in ("search-same-settings", "many-settings-then-default"):
+        if kind in ("search-same-settings", "search-then-new-parser", "many-settings-then-default"):
             exp = _dt.datetime(*clock) - _dt.timedelta(days=w["n"])
         elif kind == "construct-other-base":
             import calendar
